@@ -351,3 +351,22 @@ def Journal(x: int, tag: int = 0) -> int:
     if R.FLAGS.get("fail"):
         raise ValueError("Journal failed")
     return len(open("journal.txt").read().splitlines())
+
+
+@workflow.define(outputs=["out"])
+def Sub3(x: int, base: int = 10):
+    a = workflow.add(Node(x=x, tag=base + 1), name="a")
+    b = workflow.add(Node(x=x, tag=base + 2), name="b")
+    c = workflow.add(Node(x=x, tag=base + 3), name="c")
+    j = workflow.add(Join(x=a.out, y=b.out, tag=base + 4), name="j")
+    return j.out
+
+
+@workflow.define(outputs=["s1", "s2", "r"])
+def Nested(x: int):
+    """two sibling sub-workflows next to two regular jobs"""
+    r1 = workflow.add(Node(x=x, tag=1), name="r1")
+    r2 = workflow.add(Node(x=x, tag=2), name="r2")
+    s1 = workflow.add(Sub3(x=x, base=10), name="s1")
+    s2 = workflow.add(Sub3(x=x, base=20), name="s2")
+    return s1.out, s2.out, r2.out
